@@ -96,6 +96,9 @@ FLOWS.update(TICK_FLOWS)
 STRUCTURAL = {"handoff", "identity", "tee"}
 
 FLOWS["m_value_counts"] = F(["kv"], "keyed", props=("C33",))
+for _n in ("m_vc_map", "m_vc_map_with_key", "m_fold_mono_map_with_key", "m_fold_mono", "m_mk_map_with_key"):
+    FLOWS[_n] = F(["kv"], "keyed", props=("C33",))
+FLOWS["m_count_map"] = F(["n"], "agg", props=("C33",))
 FLOWS["m_keyed_first"] = F(["kv"], "unord", props=("C33",))
 
 # round 2: flows whose Gallina term exists only as the translation of the builder's IR dump
@@ -136,6 +139,8 @@ for _n in ("x_atomic_enumerate", "x_all_ticks_atomic_enumerate"):
     GENERATED_ONLY[_n] = F(["n"], "ord", props=("C28", "C29"))
 for _n in ("x_across_count", "x_across_fold", "x_across_unique"):
     GENERATED_ONLY[_n] = F(["n"], "agg" if _n != "x_across_unique" else "ord", props=("C30",))
+for _n in ("m_vc_map", "m_vc_map_with_key", "m_fold_mono_map_with_key", "m_fold_mono", "m_mk_map_with_key", "m_count_map"):
+    GENERATED_ONLY[_n] = FLOWS[_n]
 FLOWS.update(GENERATED_ONLY)
 
 INPUT_NAMES = "abcd"
@@ -830,6 +835,11 @@ CLOSURES = {
     "| x | * x % 2 == 1": "(fun v => n_of v mod 2 =? 1)",
     "| (i , x) | (i as u32 + 1) * x": "(fun p => VN ((kf p + 1) * vf p))",
     "| (m , v) | (m . get_raw_id () , v)": "(fun p => p)",
+    # non order-preserving closures (C33 map / map_with_key flows)
+    "| c | 100 - 10 * ((c % 10) as u32)": "(vn1 (fun c => 100 - 10 * (c mod 10)))",
+    "| (k , c) | k + 100 - 10 * ((c % 10) as u32)": "(fun p => VN (kf p + 100 - 10 * (vf p mod 10)))",
+    "| (k , s) | k + 100 - 10 * (s % 10)": "(fun p => VN (kf p + 100 - 10 * (vf p mod 10)))",
+    "| acc , v | * acc += v": "c_plus",
     # binary accumulators
     "| acc , x | * acc = (* acc * 2 + x) % 1009": "(vn2 (fun a x => (a * 2 + x) mod 1009))",
     "| acc , v | * acc = (* acc * 2 + v) % 1009": "(vn2 (fun a x => (a * 2 + x) mod 1009))",
@@ -852,8 +862,17 @@ CLOSURES = {
 }
 
 
+_MAP_WRAP = "{ let orig = f__free ; move | (k , v) | (k , orig (v)) }{f__free="
+_MAPK_WRAP = "{ let orig = f__free ; move | (k , v) | { let out = orig ((Clone :: clone (& k) , v)) ; (k , out) } }{f__free="
+
+
 def _clos(v):
     sig = closure_sig(v["expr"] if isinstance(v, dict) else v)
+    # KeyedSingleton::map / map_with_key wrap the user closure so that the key is kept
+    if sig.startswith(_MAP_WRAP) and sig[len(_MAP_WRAP):-1] in CLOSURES:
+        return "(fun e => VP (vfst e) (%s (vsnd e)))" % CLOSURES[sig[len(_MAP_WRAP):-1]]
+    if sig.startswith(_MAPK_WRAP) and sig[len(_MAPK_WRAP):-1] in CLOSURES:
+        return "(fun e => VP (vfst e) (%s e))" % CLOSURES[sig[len(_MAPK_WRAP):-1]]
     if sig not in CLOSURES:
         raise Untranslatable("closure not in the vocabulary: " + sig[:160])
     return CLOSURES[sig]
@@ -1058,6 +1077,32 @@ def _tr_s(x):
     raise Untranslatable("top-level stream node " + k)
 
 
+_ABOUNDS = []   # (ranode term, bound recorded by the builder) for every translated aggregate node
+# accumulator closures the library / the flow annotates with `monotone = manual_proof!(..)`
+_MONO_TEXT = {"| count , _ | * count += 1": "KCount", "| acc , _ | * acc += 1": "KCount", "| acc , v | * acc += v": "KPlusMono"}
+
+
+def _acc_code(v):
+    sig = closure_sig(v["expr"])
+    if sig in _MONO_TEXT:
+        return _MONO_TEXT[sig]
+    acc = _clos(v)
+    return "KPlus" if acc == "c_plus" else "(KOther %s)" % acc
+
+
+def _abound(v):
+    """the SingletonBound / KeyedSingletonBound the builder recorded, as the model's [abnd]"""
+    kind, info = _ck(v)
+    b = info.get("bound")
+    if kind == "Singleton":
+        return {"Monotonic": "BMonoSingle", "Unbounded": "BUnb"}.get(b)
+    if kind == "Optional":
+        return {"Unbounded": "BUnb"}.get(b)
+    if kind == "KeyedSingleton":
+        return {"MonotonicValue": "BMonoValue", "MonotonicKeys": "BMonoKeys", "Unbounded": "BUnb"}.get(b)
+    return None
+
+
 def tr_a(x):
     """top-level singleton / optional / keyed singleton node -> anode term"""
     k, v = _node(x)
@@ -1065,19 +1110,23 @@ def tr_a(x):
         return tr_a(v["inner"])
     # reified aggregates (ranode): the accumulator of a fold is a code when it is one of the
     # vocabulary closures proved commutative, so that wf_rab can decide the side conditions
+    t = None
     if k == "Fold":
-        acc = _clos(v["acc"])
-        code = {"c_plus": "KPlus", "c_count": "KCount"}.get(acc, "(KOther %s)" % acc)
-        return "(RFold %s %s %s)" % (_clos(v["init"]), code, tr_s(v["input"]))
-    if k == "Reduce":
-        return "(RReduce %s %s)" % (_clos(v["f"]), tr_s(v["input"]))
-    if k == "FoldKeyed":
-        return "(RFoldKeyed %s %s %s)" % (_clos(v["init"]), _clos(v["acc"]), tr_s(v["input"]))
-    if k == "ReduceKeyed":
-        return "(RReduceKeyed %s %s)" % (_clos(v["f"]), tr_s(v["input"]))
-    if k == "Map":
-        return "(RMap %s %s)" % (_clos(v["f"]), tr_a(v["input"]))
-    raise Untranslatable("top-level aggregate node " + k)
+        t = "(RFold %s %s %s)" % (_clos(v["init"]), _acc_code(v["acc"]), tr_s(v["input"]))
+    elif k == "Reduce":
+        t = "(RReduce %s %s)" % (_clos(v["f"]), tr_s(v["input"]))
+    elif k == "FoldKeyed":
+        t = "(RFoldKeyed %s %s %s)" % (_clos(v["init"]), _acc_code(v["acc"]), tr_s(v["input"]))
+    elif k == "ReduceKeyed":
+        t = "(RReduceKeyed %s %s)" % (_clos(v["f"]), tr_s(v["input"]))
+    elif k == "Map":
+        t = "(RMap %s %s)" % (_clos(v["f"]), tr_a(v["input"]))
+    if t is None:
+        raise Untranslatable("top-level aggregate node " + k)
+    b = _abound(v)
+    if b is not None:
+        _ABOUNDS.append((t, b))
+    return t
 
 
 def _tr_b(x):
@@ -1164,6 +1213,7 @@ def translate_flow(ir):
     del _KINDS_S[:]
     del _KINDS_B[:]
     del _NET[:]
+    del _ABOUNDS[:]
     if len(ir) != 1:
         raise Untranslatable("%d roots (cycles / several outputs)" % len(ir))
     rk, rv = _node(ir[0])
@@ -1226,7 +1276,8 @@ def translated_defs(ctx, binary, flows):
             kind, term, expected = translate_flow(r["ir"])
             defs.append("Definition %s := %s." % (gen_name(f), term))
             report[f] = {"kind": kind, "expected_total_order": expected, "term": term, "shared_extra": list(_EXTRA),
-                         "kinds_s": list(_KINDS_S), "kinds_b": list(_KINDS_B), "sender": (list(_NET) or [None])[0]}
+                         "kinds_s": list(_KINDS_S), "kinds_b": list(_KINDS_B), "sender": (list(_NET) or [None])[0],
+                         "abounds": list(_ABOUNDS)}
         except Untranslatable as e:
             report[f] = {"kind": None, "why": str(e)}
     return "\n".join(defs), report
@@ -1288,6 +1339,20 @@ class Translated:
             return None
         return ts[0] if len(ts) == 1 else "(N.lor %s %s)" % (ts[0], ts[1])
 
+    def abounds_term(self, flow):
+        """bound judgement of every translated aggregate node vs the bound the builder recorded"""
+        ab = self.report.get(flow, {}).get("abounds") or []
+        if not ab:
+            return None
+        return "(chk_abounds [%s])" % "; ".join("(%s, %s)" % e for e in ab)
+
+    def root_promise(self, flow):
+        """mono_kind promised by the RECORDED bound of the observed (outermost) aggregate node"""
+        ab = self.report.get(flow, {}).get("abounds") or []
+        if not ab:
+            return None
+        return "(promise_of %s)" % ab[-1][1]
+
     def kinds_count(self):
         return sum(len(r.get("kinds_s", [])) + len(r.get("kinds_b", [])) for r in self.report.values())
 
@@ -1315,10 +1380,12 @@ def emit_term_named(flow, name, res, fn="chk_emit", extras=()):
     kind-judgement check of the flow's translated nodes"""
     t = _emit_term_named(flow, name, res, fn, extras)
     tr = _TR_CURRENT[0]
-    k = tr.kinds_term(flow) if tr is not None else None
-    if k is None or isinstance(t, int):
+    if tr is None or isinstance(t, int):
         return t
-    return "(N.lor %s %s)" % (t, k)
+    for k in (tr.kinds_term(flow), tr.abounds_term(flow)):
+        if k is not None:
+            t = "(N.lor %s %s)" % (t, k)
+    return t
 
 
 def _emit_term_named(flow, name, res, fn="chk_emit", extras=()):
